@@ -252,3 +252,40 @@ theorem mem_of_get?_some (m : AMap κ ν) {k : κ} {v : ν} (hg : get? m k = som
 
 end AMap
 end Okane
+
+namespace Okane.AMap
+variable {κ ν : Type} [DecidableEq κ]
+
+theorem mem_insert_imp (m : AMap κ ν) (k : κ) (v : ν) {kv : κ × ν} (h : kv ∈ insert m k v) :
+    kv = (k, v) ∨ kv ∈ m := by
+  induction m with
+  | nil => simp [insert] at h; exact Or.inl h
+  | cons hd tl ih =>
+    obtain ⟨a, b⟩ := hd
+    simp only [insert] at h
+    by_cases h1 : a = k
+    · simp only [h1, if_true, List.mem_cons] at h
+      rcases h with h | h
+      · exact Or.inl h
+      · exact Or.inr (List.mem_cons_of_mem _ h)
+    · simp only [h1, if_false, List.mem_cons] at h
+      rcases h with h | h
+      · exact Or.inr (by simp [h])
+      · rcases ih h with h | h
+        · exact Or.inl h
+        · exact Or.inr (List.mem_cons_of_mem _ h)
+
+theorem mem_erase_imp (m : AMap κ ν) (k : κ) {kv : κ × ν} (h : kv ∈ erase m k) : kv ∈ m := by
+  induction m with
+  | nil => simp [erase] at h
+  | cons hd tl ih =>
+    obtain ⟨a, b⟩ := hd
+    simp only [erase] at h
+    by_cases h1 : a = k
+    · simp only [h1, if_true] at h; exact List.mem_cons_of_mem _ h
+    · simp only [h1, if_false, List.mem_cons] at h
+      rcases h with h | h
+      · simp [h]
+      · exact List.mem_cons_of_mem _ (ih h)
+
+end Okane.AMap
